@@ -1,4 +1,5 @@
 """C04 — every accepted share is credited exactly once, to the right parties."""
+import prvlib as L
 import sesslib as S
 
 
@@ -6,11 +7,49 @@ def nontrivial(h, lines):
     return any(l.startswith("< cb ") for l in lines) and any("result id=" in l and " ok" in l for l in lines)
 
 
+def task_credit_in_the_scheduler(ctx):
+    """the task's side of the credit: which task's callback the scheduler has installed while tasks end, follow one another, are
+    removed, their destination fails or the destination change takes time (C07's scheduler harness: the real Scheduler over a
+    proxy double that keeps the previous callback until SetDest returns) against Model/Sched.lean and Model/SchedSlow.lean; a
+    difference in a credit (`onsubmit`), in what a task had left when it ended (`onend`), or a crash is reported here"""
+    exe = L.build_harness(ctx, "allocator")
+    if not exe:
+        return 0
+    rc, out = L.run_harness(ctx, exe, "TestVerifC07$", env={"VERIF_N": 300 if ctx.tier == "quick" else 4000, "VERIF_MAXOPS": 40, "VERIF_FLUSH": 1}, timeout=1200)
+    if rc != 0:
+        if not L.crash_violation(ctx, "c07.impl.txt", out, "c04"):
+            ctx.tie_failures.append("scheduler harness run failed (rc=%d): %s" % (rc, out[-300:]))
+        return 0
+    impl = ctx.out + "/c07.impl.txt"
+    rc, err = L.drv("model", "c07", impl, impl + ".model.txt")
+    if rc != 0:
+        ctx.tie_failures.append("driver model c07 failed: " + err[-200:])
+        return 0
+    for d in L.diff_cases(impl, impl + ".model.txt"):
+        both = d["impl"] + " " + d["other"]
+        if "AMBIG" in both or not any(k in both for k in ("onsubmit", "onend", "ondisconnect")):
+            continue
+        L.violation(ctx, "c04:task-credit-in-the-scheduler", "after %s: the scheduler reports %r, the model %r — a share is credited to a task that is not the one whose destination it went to, or a task goes on being credited / served after its end was reported" % (
+            L.last_op_before(d["lines"], d["first"])[2:], d["impl"][:120], d["other"][:120]),
+            {"clause": "the task is credited only for shares forwarded to its own destination; nothing is credited after its end", "case": d["header"],
+             "ops": [l for l in d["lines"][:d["first"] + 1] if l.startswith("> ")], "how_to_replay": "bin/check C07 --replay <this file>"})
+        break
+    return len(L.parse_cases(impl))
+
+
 def run(ctx):
     cases = S.run_session_check(ctx, "C04")
+    ctx.coverage["scheduler_histories"] = task_credit_in_the_scheduler(ctx)
     ctx.coverage["submits_after_reconnects_compared"] = S.after_reconnect(ctx, "C04")
     S.session_coverage(ctx, cases, nontrivial, S.GEN_RULE + " Non-trivial: a session in which a task callback fired and a share was accepted; distinct by op list")
 
 
 def replay(ctx, path):
+    import json
+    if "scheduler" in json.load(open(path)).get("signature", ""):
+        import importlib.util
+        spec = importlib.util.spec_from_file_location("chk_C07", "%s/checks/C07.py" % L.VERIF)
+        mod = importlib.util.module_from_spec(spec)
+        spec.loader.exec_module(mod)
+        return mod.replay(ctx, path)
     return S.session_replay(ctx, path, "C04")
